@@ -29,7 +29,75 @@ Proof.
       destruct (rev (q :: qs)) as [|x xs] eqn:Er.
       { exfalso. apply (f_equal (@length _)) in Er. rewrite rev_length in Er. discriminate. }
       destruct (Nat.ltb 3 (length (trim_space p0))); [reflexivity|]. destruct (atoi (trim_space p0)); [|reflexivity].
-      rewrite slice_to_app1. cbn [bind]. rewrite parse_hms_c_ok. cbn [bind]. rewrite <- Er, rev_involutive. reflexivity.
+      rewrite slice_to_pred_app1. cbn [bind]. rewrite parse_hms_c_ok. cbn [bind]. rewrite <- Er, rev_involutive. reflexivity.
 Qed.
 Theorem parse_duration_c_no_panic s sep k p : parse_duration_c s sep k <> Panic p.
 Proof. rewrite parse_duration_c_ok. discriminate. Qed.
+
+(* ---- second audit, N6: which guards of parseDuration are load-bearing ----
+   Each function below is the checked function of Model/DurC.v with ONE guard removed and nothing else changed. *)
+(* length test before index: "else if len(parts) == 3" replaced by "else" (subtitles.go:826) *)
+Definition parse_hms_c_noguard3 (s : str) : res (option (Z * Z * Z)) :=
+  let parts := split_byte colon (trim_space s) in
+  if Nat.eqb (length parts) 2 then
+    do ps <- index parts 1 824; do pm <- index parts 0 825;
+    Ok (match atoi (trim_space ps), atoi (trim_space pm) with
+        | Some sec, Some mn => Some (0, mn, sec)
+        | _, _ => None
+        end)
+  else
+    do ps <- index parts 2 827; do pm <- index parts 1 828; do ph <- index parts 0 829;
+    Ok (match atoi (trim_space ps), atoi (trim_space pm) with
+        | Some sec, Some mn =>
+          match ph with
+          | [] => Some (0, mn, sec)
+          | _ => match atoi (trim_space ph) with Some h => Some (h, mn, sec) | None => None end
+          end
+        | _, _ => None
+        end).
+(* length test before index: "if len(parts) == 2" removed (subtitles.go:823): parts[1], parts[0] whatever the length *)
+Definition parse_hms_c_noguard2 (s : str) : res (option (Z * Z * Z)) :=
+  let parts := split_byte colon (trim_space s) in
+  do ps <- index parts 1 824; do pm <- index parts 0 825;
+  Ok (match atoi (trim_space ps), atoi (trim_space pm) with
+      | Some sec, Some mn => Some (0, mn, sec)
+      | _, _ => None
+      end).
+(* "if len(parts) >= 2" removed (subtitles.go:801), the parts given as an argument: parts[len(parts)-1] (803) and
+   parts[:len(parts)-1] (815) on whatever Split returned *)
+Definition parse_duration_on_c_noguard (parts : list str) (sep : byte) (k : nat) : res (option Z) :=
+  do lastp <- index parts (length parts - 1) 803;
+  let f := trim_space lastp in
+  if Nat.ltb 3 (length f) then Ok None
+  else match atoi f with
+       | None => Ok None
+       | Some ms =>
+         let ms' := (ms * pow10_int (Z.of_nat k - Z.of_nat (length f)))%Z in
+         do front <- slice_to_pred parts 815;
+         do hms <- parse_hms_c (join [sep] front);
+         Ok (match hms with
+             | Some (h, mn, sec) => Some (ms' * ms_ns + sec * second_ns + mn * minute_ns + h * hour_ns)%Z
+             | None => None
+             end)
+       end.
+Definition parse_duration_c_noguard (s : str) (sep : byte) (k : nat) : res (option Z) :=
+  parse_duration_on_c_noguard (split_byte sep s) sep k.
+(* This guard is NOT a panic guard: strings.Split with a non-empty separator returns at least one part
+   (Kit.Str.split_byte_nonnil), so len(parts)-1 >= 0 with or without the test; what the test decides is whether a string
+   without the separator is read as hours:minutes:seconds or as milliseconds.  The sites 803 and 815 are live all the
+   same: on an empty list of parts (what strings.Split returns for an empty string AND an empty separator) the first
+   one fires; 815 is dominated by 803 (same slice, same bound). *)
+Theorem parse_duration_c_noguard_no_panic s sep k p : parse_duration_c_noguard s sep k <> Panic p.
+Proof.
+  unfold parse_duration_c_noguard, parse_duration_on_c_noguard.
+  destruct (split_byte sep s) as [|p0 ps] eqn:E using rev_ind; [exfalso; exact (split_byte_nonnil sep s E)|]. clear IHps.
+  rewrite index_last1. cbn [bind]. destruct (Nat.ltb 3 (length (trim_space p0))); [discriminate|].
+  destruct (atoi (trim_space p0)); [|discriminate]. rewrite slice_to_pred_app1. cbn [bind]. rewrite parse_hms_c_ok. discriminate.
+Qed.
+Lemma dur_guards_load_bearing :
+  (parse_hms_c_noguard3 [53%N] = Panic 827 /\ parse_hms_c [53%N] = Ok None) /\
+  (parse_hms_c_noguard2 [53%N] = Panic 824 /\ parse_hms_c [53%N] = Ok None) /\
+  (parse_duration_on_c_noguard [] comma 3 = Panic 803 /\ slice_to_pred (@nil str) 815 = Panic 815 /\
+   parse_duration_c_noguard [53%N] comma 3 = Ok None /\ parse_duration_c [53%N] comma 3 = Ok None) /\
+  (forall s sep k p, parse_duration_c_noguard s sep k <> Panic p).
+Proof. split; [|split; [|split]]; [vm_compute; repeat split .. | exact parse_duration_c_noguard_no_panic]. Qed.
